@@ -92,8 +92,18 @@ func c16Peer(b *xport.Conn, proxy, useTLS bool, stopAt int, negative string) {
 			if stopAt == 1 {
 				return
 			}
-			if negative == "proxy-refuses" {
+			switch negative {
+			case "proxy-refuses":
 				b.Write([]byte("HTTP/1.1 407 Proxy Authentication Required\r\nContent-Length: 0\r\n\r\n"))
+				return
+			case "proxy-refuses-no-reason":
+				b.Write([]byte("HTTP/1.1 403\r\n\r\n"))
+				return
+			case "proxy-refuses-body":
+				b.Write([]byte("HTTP/1.1 502 Bad Gateway\r\nContent-Length: 5\r\n\r\nsorry"))
+				return
+			case "proxy-malformed":
+				b.Write([]byte("garbage\r\n\r\n"))
 				return
 			}
 			b.Write([]byte("HTTP/1.1 200 Connection established\r\n\r\n"))
@@ -128,6 +138,10 @@ func c16Peer(b *xport.Conn, proxy, useTLS bool, stopAt int, negative string) {
 		switch negative {
 		case "server-404":
 			conn.Write([]byte("HTTP/1.1 404 Not Found\r\nContent-Length: 3\r\n\r\nno\n"))
+		case "server-malformed":
+			conn.Write([]byte("HTTP/1.1 101\r\nUpgrade websocket\r\n\r\n"))
+		case "bad-extension-parameters":
+			conn.Write([]byte("HTTP/1.1 101 Switching Protocols\r\nUpgrade: websocket\r\nConnection: Upgrade\r\nSec-WebSocket-Accept: " + acceptDigest(key) + "\r\nSec-WebSocket-Extensions: permessage-deflate; server_no_context_takeover\r\n\r\n"))
 		case "wrong-accept":
 			conn.Write([]byte("HTTP/1.1 101 Switching Protocols\r\nUpgrade: websocket\r\nConnection: Upgrade\r\nSec-WebSocket-Accept: AAAAAAAAAAAAAAAAAAAAAAAAAAA=\r\n\r\n"))
 		default:
@@ -387,8 +401,8 @@ func runC16(ctx *core.Ctx, out *core.Out) {
 		}
 		return
 	}
-	for _, neg := range []string{"proxy-refuses", "untrusted-cert", "wrong-host-cert", "server-404", "wrong-accept"} {
-		if (neg == "proxy-refuses" && !cfg.Proxy) || (strings.HasSuffix(neg, "-cert") && !cfg.TLS) {
+	for _, neg := range []string{"proxy-refuses", "proxy-refuses-no-reason", "proxy-refuses-body", "proxy-malformed", "untrusted-cert", "wrong-host-cert", "server-404", "wrong-accept", "server-malformed", "bad-extension-parameters"} {
+		if (strings.HasPrefix(neg, "proxy-") && !cfg.Proxy) || (strings.HasSuffix(neg, "-cert") && !cfg.TLS) {
 			continue
 		}
 		run := c16Dial(cfg, -1, 0, 0, neg, false)
